@@ -12,7 +12,7 @@ use crate::{
 };
 
 use super::{
-    semtype::{BddMemoEmptyRef, MemoEmpty, SemType, SemTypeOps},
+    semtype::{BddMemoEmptyRef, MemoEmpty, ProvisionalEmpty, SemType, SemTypeOps},
     subtype::{ProperSubtype, StringLitOrFormat, SubType, SubTypeTag},
 };
 #[derive(Debug, Clone)]
@@ -523,7 +523,15 @@ pub fn list_is_empty(bdd: &Rc<Bdd>, builder: &mut SemTypeContext) -> Result<IsEm
         }
     }
 
+    let mark = builder.provisional_empty.len();
     let is_empty = bdd_every_result(bdd, &None, &None, list_formula_is_empty, builder)?;
+    match is_empty {
+        // answers that assumed this type to be empty were memoised on the way: the assumption is refuted
+        IsEmptyStatus::NotEmpty => builder.forget_provisional_empty_since(mark),
+        IsEmptyStatus::IsEmpty => builder
+            .provisional_empty
+            .push(ProvisionalEmpty::List((**bdd).clone())),
+    }
     builder
         .list_memo
         .get_mut(bdd)
